@@ -201,6 +201,7 @@ type contractError struct{ msg string }
 func (e contractError) Error() string { return e.msg }
 
 func (x *Exec) evalClause(env *Env, cl *Clause) string {
+	x.root().lastUses = cl.Uses
 	e, err := cl.parse()
 	if err != nil {
 		panic(contractError{err.Error()})
@@ -1092,6 +1093,15 @@ func (e *Env) specCallVals(fo *types.Func, args []Val) Val {
 	resT := fn.Signature.Results()
 	// evaluate in a scratch copy of the evaluation state: spec calls have no effects
 	st := e.st.clone()
+	savedOuter := e.c.outerGuard
+	if e.st.guard != "" && e.st.guard != "true" {
+		if savedOuter != "" && savedOuter != "true" {
+			e.c.outerGuard = and(savedOuter, e.st.guard)
+		} else {
+			e.c.outerGuard = e.st.guard
+		}
+	}
+	defer func() { e.c.outerGuard = savedOuter }()
 	st.guard = "true"
 	v := x.inlineCall(st, fn, nil, args, resT, true)
 	return v
